@@ -123,6 +123,11 @@ func cmdCheck(args []string) {
 		}
 		results = append(results, fr)
 		funcsUnder = append(funcsUnder, name)
+		if *verbose {
+			for _, n := range fr.Notes {
+				fmt.Printf("note %s: %s\n", name, n)
+			}
+		}
 	}
 	if len(results) == 0 {
 		toolErr("no function under contract for property %s", *prop)
